@@ -68,11 +68,12 @@ def mat_txt(W):
 class Geo:
     """one case of the `geo` topic"""
 
-    def __init__(self, lists, W, lm=None, tag=""):
+    def __init__(self, lists, W, lm=None, tag="", idx=None):
         self.lists = [list(l) for l in lists]
         self.W = [list(r) for r in W]
         self.lm = None if lm is None else list(lm)
         self.tag = tag
+        self.idx = None if idx is None else list(idx)     # values of the caller's index vector (None: 0..N-1)
 
     @property
     def N(self):
@@ -82,6 +83,8 @@ class Geo:
         s = "geo %sN=%d lists=%s w=%s" % (extra, self.N, lists_txt(self.lists), mat_txt(self.W))
         if self.lm is not None:
             s += " lm=%s" % ",".join(str(v) for v in self.lm)
+        if self.idx is not None:
+            s += " idx=%s" % ",".join(str(v) for v in self.idx)
         return s
 
     def oracle_line(self, out):
@@ -100,7 +103,8 @@ def parse_geo(line):
     lists = [[] if r == "-" else [int(v) for v in r.split(",")] for r in f["lists"].split(";")]
     W = [[Fraction(x) for x in r.split(",")] for r in f["w"].split(";")]
     lm = [int(v) for v in f["lm"].split(",") if v != ""] if "lm" in f else None
-    return Geo(lists, W, lm, "replay")
+    idx = [int(v) for v in f["idx"].split(",")] if "idx" in f else None
+    return Geo(lists, W, lm, "replay", idx)
 
 
 # ----------------------------------------------------------------------------- generators (all randomness: ctx.rng)
@@ -108,6 +112,34 @@ WEIGHT_ALPHABETS = [
     [1], [0, 1], [1, 2], [1, 2, 3], [0, 1, 2, 5], [Fraction(1, 2), Fraction(1, 4), Fraction(3, 4), 1],
     [1, 1, 1, 2, Fraction(3, 2)], list(range(1, 20)),
 ]
+# wide mantissas (audit b1): > 24 significant bits, every path sum of <= 200 terms still exact in double (< 53 bits),
+# so a computation of path lengths in single precision is visible
+WIDE_ALPHABETS = [
+    [1 + Fraction(j, 2 ** 30) for j in (1, 2, 3, 5, 17, 255, 511, 1023)],
+    [2 ** 26 + j for j in (0, 1, 2, 3, 7, 100, 1023)],
+    [1, 2 ** 20 + 1, Fraction(1, 2 ** 20), 3 + Fraction(1, 2 ** 25)],
+]
+
+
+def wide(x):
+    """more than 24 significant bits (not representable in single precision)"""
+    x = Fraction(x)
+    n = abs(x.numerator)
+    while n and n % 2 == 0:
+        n //= 2
+    return n.bit_length() > 24
+
+
+def index_vector(r, N):
+    """a non-identity index vector: offset + permutation, or a strided range (values distinct, any order)"""
+    kind = r.below(3)
+    if kind == 0:
+        return r.shuffle(list(range(N)))
+    if kind == 1:
+        off = r.range(1, 5)
+        return [off + v for v in r.shuffle(list(range(N)))]
+    step, off = r.range(2, 3), r.range(0, 4)
+    return [off + step * v for v in (r.shuffle(list(range(N))) if r.chance(1, 2) else list(range(N)))]
 
 
 def l1(p, q):
@@ -125,7 +157,8 @@ def g_knn(r, N, k):
     span = r.choice([2, 3, 4, 6, 10])
     pts = [tuple(r.below(span) for _ in range(dim)) for _ in range(N)]
     dist = l1 if r.chance(2, 3) else linf
-    scale = r.choice([1, 1, 1, Fraction(1, 2), Fraction(1, 4)])
+    scale = r.choice([1, 1, 1, Fraction(1, 2), Fraction(1, 4), 1 + Fraction(r.range(1, 1023), 2 ** 30),
+                      2 ** 26 + r.below(1024)])
     W = [[dist(p, q) * scale for q in pts] for p in pts]
     lists = []
     for i in range(N):
@@ -139,7 +172,7 @@ def g_knn(r, N, k):
 def g_digraph(r, N, k):
     """arbitrary uniform out-degree lists, arbitrary (asymmetric, non-metric) non-negative dyadic weights;
     sometimes self loops and repeated entries"""
-    alpha = r.choice(WEIGHT_ALPHABETS)
+    alpha = r.choice(WIDE_ALPHABETS) if r.chance(1, 3) else r.choice(WEIGHT_ALPHABETS)
     W = [[r.choice(alpha) for _ in range(N)] for _ in range(N)]
     if r.chance(1, 2):
         for i in range(N):
@@ -367,6 +400,9 @@ def judge_geo(ctx, bins, cases, label, threads=THREADS, shrink_budget=120):
         ctx.stat("geo:N<=6" if c.N <= 6 else "geo:N<=16" if c.N <= 16 else "geo:N<=32" if c.N <= 32 else "geo:N>32")
         if c.lm is not None:
             ctx.stat("geo:with-landmarks")
+        ctx.stat("geo:index-vector:" + ("identity" if c.idx is None or c.idx == list(range(c.N)) else "non-identity"))
+        if any(wide(x) for row in c.W for x in row):
+            ctx.stat("geo:weights-with-more-than-24-significant-bits")
         first = impl[(BUILDS[0], threads[0])][i]
         if "dblmax" in first:
             ctx.stat("geo:has-unreachable")
@@ -459,7 +495,7 @@ def drop_vertex(c, v):
         lm = [ren(x) for x in c.lm if x != v]
         if not lm:
             return None
-    return Geo(lists, W, lm, c.tag)
+    return Geo(lists, W, lm, c.tag, None if c.idx is None else [x for i, x in enumerate(c.idx) if i != v])
 
 
 def shrink_geo(ctx, bins, c, b, t, clause, budget):
@@ -477,7 +513,7 @@ def shrink_geo(ctx, bins, c, b, t, clause, budget):
         # fewer landmarks
         if cur.lm and len(cur.lm) > 1:
             for i in range(len(cur.lm)):
-                x = Geo(cur.lists, cur.W, cur.lm[:i] + cur.lm[i + 1:], cur.tag)
+                x = Geo(cur.lists, cur.W, cur.lm[:i] + cur.lm[i + 1:], cur.tag, cur.idx)
                 if bad(x):
                     cur, progress = x, True
                     break
@@ -495,7 +531,7 @@ def shrink_geo(ctx, bins, c, b, t, clause, budget):
         k = len(cur.lists[0])
         if k > 1 and all(len(l) == k for l in cur.lists):
             for col in range(k):
-                x = Geo([l[:col] + l[col + 1:] for l in cur.lists], cur.W, cur.lm, cur.tag)
+                x = Geo([l[:col] + l[col + 1:] for l in cur.lists], cur.W, cur.lm, cur.tag, cur.idx)
                 if bad(x):
                     cur, progress = x, True
                     break
@@ -503,7 +539,7 @@ def shrink_geo(ctx, bins, c, b, t, clause, budget):
                 continue
         # unit weights
         if any(w not in (0, 1) for r_ in cur.W for w in r_):
-            x = Geo(cur.lists, [[0 if i == j else 1 for j in range(cur.N)] for i in range(cur.N)], cur.lm, cur.tag)
+            x = Geo(cur.lists, [[0 if i == j else 1 for j in range(cur.N)] for i in range(cur.N)], cur.lm, cur.tag, cur.idx)
             if bad(x):
                 cur, progress = x, True
     return cur
@@ -511,21 +547,30 @@ def shrink_geo(ctx, bins, c, b, t, clause, budget):
 
 # ----------------------------------------------------------------------------- Isomap end to end
 class Iso:
-    def __init__(self, W, k, d, eig="dense", cc=0, tag=""):
+    def __init__(self, W, k, d, eig="dense", cc=0, tag="", idx=None, approx=False):
         self.W, self.k, self.d, self.eig, self.cc, self.tag = W, k, d, eig, cc, tag
+        self.idx = idx          # values of the caller's index vector (None: 0..N-1)
+        self.approx = approx    # squares of the geodesics are not exact in double: compare `pre` within 2^-30*scale
 
     @property
     def N(self):
         return len(self.W)
 
     def line(self):
-        return "iso N=%d k=%d d=%d eig=%s cc=%d w=%s" % (self.N, self.k, self.d, self.eig, self.cc, mat_txt(self.W))
+        s = "iso N=%d k=%d d=%d eig=%s cc=%d w=%s" % (self.N, self.k, self.d, self.eig, self.cc, mat_txt(self.W))
+        if self.idx is not None:
+            s += " idx=%s" % ",".join(str(v) for v in self.idx)
+        if self.approx:
+            s += " approx=1"
+        return s
 
 
 def parse_iso(line):
     f = dict(t.split("=", 1) for t in line.split()[1:] if "=" in t)
     W = [[Fraction(x) for x in r.split(",")] for r in f["w"].split(";")]
-    return Iso(W, int(f["k"]), int(f["d"]), f.get("eig", "dense"), int(f.get("cc", "0")), "replay")
+    idx = [int(v) for v in f["idx"].split(",")] if "idx" in f else None
+    return Iso(W, int(f["k"]), int(f["d"]), f.get("eig", "dense"), int(f.get("cc", "0")), "replay", idx,
+               f.get("approx") == "1")
 
 
 def i_points(r, N):
@@ -579,7 +624,7 @@ def iso_model_line(c, f):
     extra = ""
     if c.eig == "dense" and c.N <= 16:      # certificate of the final embedding (exact LDLt: small N only)
         extra = " d=%d ev=%s Y=%s" % (c.d, f.get("ev", ""), f.get("Y", ""))
-    return base + " pre=%s%s" % (f.get("pre", ""), extra)
+    return base + " pre=%s%s%s" % (f.get("pre", ""), extra, " approx=1" if c.approx else "")
 
 
 def judge_iso(ctx, bins, cases, threads):
@@ -599,10 +644,19 @@ def judge_iso(ctx, bins, cases, threads):
             continue
         mlines.append(iso_model_line(c, fields(o)))
         midx.append(i)
+    # the certificate of the final embedding is also run on the Fibonacci build's output (its Y / ev)
+    fib_key = ("fib", threads[0])
+    fidx = []
+    for i, c in enumerate(cases):
+        o = impl[fib_key][i]
+        if c.eig == "dense" and c.N <= 16 and not o.startswith("abort:") and "throw" not in fields(o):
+            mlines.append(iso_model_line(c, fields(o)))
+            fidx.append(i)
     mout = model_lines(ctx, mlines) if mlines else []
     if mout is None:
         return
     verdict = dict(zip(midx, mout))
+    verdict_fib = dict(zip(fidx, mout[len(midx):]))
 
     def fail_once(sig, what, i, detail):
         ctx.stat(sig)
@@ -647,11 +701,28 @@ def judge_iso(ctx, bins, cases, threads):
         rounds = int(rf.get("rounds", "0") or 0)
         obs = [] if not rf.get("nb") else [0 if l == "-" else len(l.split(",")) for l in rf["nb"].split(";")]
         want_k = min(c.k * 2 ** max(rounds - 1, 0), c.N - 1)
-        if vf.get("graph") != "ok" or not obs or any(n != want_k for n in obs) or rounds < 1 or (c.cc == 0 and rounds != 1):
-            fail_once("iso:observed-lists", "the neighbour lists Isomap relaxes over (observed through the distance callback) are not "
-                      "uniform lists of min(k*2^(rounds-1), N-1) = %d entries (rounds=%d, lengths %s, model: %s)"
-                      % (want_k, rounds, sorted(set(obs)), vf.get("graph")), i, {"verdict": v, "impl": ref[:2000]})
+        ctx.stat("iso:rounds=%d" % rounds)
+        ctx.stat("iso:k=%d" % c.k)
+        ctx.stat("iso:d=%d" % c.d)
+        ctx.stat("iso:index-vector:" + ("identity" if c.idx is None or c.idx == list(range(c.N)) else "non-identity"))
+        if (rf.get("shape", "ok") != "ok" or vf.get("graph") != "ok" or not obs or any(n != want_k for n in obs) or rounds < 1
+                or (c.cc == 0 and rounds != 1)):
+            # the OBSERVATION is not of the expected shape (e.g. the search was restructured): a broken tie, not a
+            # failing input -- the property says nothing about how the search asks its questions
+            ctx.stat("iso:observed-lists-not-recognised")
+            acc["unrecognised"] = acc.get("unrecognised", 0) + 1
+            if "corr:iso-observed-lists" not in ctx.c04_seen:
+                ctx.c04_seen.add("corr:iso-observed-lists")
+                ctx.broken("corr:iso-observed-lists", "correspondence c04_iso: neighbour lists observed through the distance callback",
+                           "the query pattern of Isomap::embed is not recognised as rounds of complete pair covers followed by edge "
+                           "queries over uniform lists of min(k*2^(rounds-1), N-1) = %d entries (shape=%s, rounds=%d, lengths %s, "
+                           "model: %s)" % (want_k, rf.get("shape"), rounds, sorted(set(obs)), vf.get("graph")),
+                           case=lines[i], detail={"verdict": v, "impl": ref[:2000]})
             continue
+        if vf.get("ref", "ok") != "ok":
+            ctx.broken("model:dijkstra-vs-floyd-warshall", "TapkeeVerif.Dijkstra.dijkstra_exact (model run)",
+                       "the model's Dijkstra and the Floyd-Warshall reference disagree on the observed lists", case=lines[i],
+                       detail={"verdict": v})
         reach = vf.get("reach")
         ctx.stat("iso:model-predicts-" + str(reach))
         if reach == "unreachable":
@@ -671,7 +742,8 @@ def judge_iso(ctx, bins, cases, threads):
                       i, {"verdict": v, "impl": ref[:2000]})
             continue
         ctx.stat("iso:geodesics-symmetric" if vf.get("sym") == "1" else "iso:geodesics-asymmetric")
-        ctx.stat("exact-comparisons", c.N * c.N)
+        if not c.approx:
+            ctx.stat("exact-comparisons", c.N * c.N)
         if str(vf.get("pre")).startswith("FAIL"):
             fail_once("iso:matrix-not-finite", "the matrix Isomap hands to the eigensolver is not finite although all geodesics "
                       "are finite", i, {"verdict": v, "impl": ref[:2000]})
@@ -698,12 +770,24 @@ def judge_iso(ctx, bins, cases, threads):
                 acc["cert_unjudged"] += 1
         if yv.startswith("ok"):
             ctx.stat("approx-comparisons", c.N * c.d + c.d * c.d)
+        vfib = verdict_fib.get(i)
+        if vfib is not None:
+            yfib = fields(vfib).get("y", "na")
+            ctx.stat("iso:embedding-certificate(fib build):" + yfib.split(":")[0])
+            if yfib.startswith("FAIL"):
+                fail_once("iso:embedding-not-classical-mds:fib:" + yfib,
+                          "the embedding returned by Isomap (Fibonacci build) is not the classical-MDS solution of the reference "
+                          "geodesics (%s)" % yfib, i, {"verdict": vfib, "impl": impl[fib_key][i][:3000]})
         if yv.startswith("FAIL"):
             fail_once("iso:embedding-not-classical-mds:" + yv,
                       "the embedding returned by Isomap is not the classical-MDS solution of the reference geodesics (%s: finite "
                       "values, Gram matrix, eigen-residual, extremality checked in exact arithmetic, tolerance 2^-30*scale)" % yv,
                       i, {"verdict": v, "impl": ref[:3000]})
-        if vf.get("pre") != "ok":
+        if vf.get("pre") == "ok~":
+            ctx.stat("iso:pre-within-2^-30(wide-mantissa family)")
+            ctx.stat("approx-comparisons", c.N * c.N)
+            acc["judged"] += 1
+        elif vf.get("pre") != "ok":
             ctx.broken("corr:iso-pre", "correspondence c04_iso: matrix handed to the eigensolver vs model isomapPre",
                        "model isomapPre and the observed matrix differ: %s" % vf.get("pre"), case=lines[i],
                        detail={"verdict": v, "impl": ref[:3000]})
@@ -728,7 +812,10 @@ def skip_guards(ctx):
             ctx.broken("guard:iso-certificate-skip-rate", "correspondence c04_iso (certificate skip-rate guard)",
                        "%d of %d eligible embeddings were not judged by the certificate (inconclusive / na; allowed: %d%%)"
                        % (a["cert_unjudged"], a["cert_eligible"], 100 * ISO_MAX_CERT_UNJUDGED_FRACTION))
-        if a["judged"] * 2 < a["total"]:
+        if a.get("unrecognised", 0) * 4 > a["total"] and "corr:iso-observed-lists" not in ctx.c04_seen:
+            ctx.broken("guard:iso-unrecognised", "correspondence c04_iso (observation guard)",
+                       "%d of %d Isomap cases have an unrecognised query pattern" % (a["unrecognised"], a["total"]))
+        if a["judged"] * 2 < a["total"] and "corr:iso-observed-lists" not in ctx.c04_seen:
             ctx.broken("guard:iso-judged-rate", "correspondence c04_iso (judged-rate guard)",
                        "only %d of %d Isomap cases reached the exact comparison of the matrix handed to the eigensolver"
                        % (a["judged"], a["total"]))
@@ -761,19 +848,20 @@ def shrink_iso(ctx, bins, c):
     cur = c
     n = c.N // 2
     while n >= 4:
-        x = Iso([row[:n] for row in cur.W[:n]], min(cur.k, n - 1), min(cur.d, n - 1), cur.eig, cur.cc, cur.tag)
+        x = Iso([row[:n] for row in cur.W[:n]], min(cur.k, n - 1), min(cur.d, n - 1), cur.eig, cur.cc, cur.tag,
+                None if cur.idx is None else cur.idx[:n], cur.approx)
         if x.k >= 3 and iso_bad(ctx, bins, x):
             cur = x
             n //= 2
         else:
             break
     for k in range(3, cur.k):
-        x = Iso(cur.W, k, cur.d, cur.eig, cur.cc, cur.tag)
+        x = Iso(cur.W, k, cur.d, cur.eig, cur.cc, cur.tag, cur.idx, cur.approx)
         if iso_bad(ctx, bins, x):
             cur = x
             break
     if cur.d > 1:
-        x = Iso(cur.W, cur.k, 1, cur.eig, cur.cc, cur.tag)
+        x = Iso(cur.W, cur.k, 1, cur.eig, cur.cc, cur.tag, cur.idx, cur.approx)
         if iso_bad(ctx, bins, x):
             cur = x
     return cur
@@ -842,10 +930,12 @@ def correspond(ctx):
         N = r.range(2, 6)
         k = r.range(1, max(1, min(3, N - 1)))
         base = g(r.fork(), N, k)
+        if r.chance(1, 2):
+            base.idx = index_vector(r.fork(), N)
         for lm in all_subsets(N):
-            small.append(Geo(base.lists, base.W, lm, base.tag))
+            small.append(Geo(base.lists, base.W, lm, base.tag, base.idx))
             if len(lm) > 1 and r.chance(1, 4):
-                small.append(Geo(base.lists, base.W, r.shuffle(lm), base.tag))
+                small.append(Geo(base.lists, base.W, r.shuffle(lm), base.tag, base.idx))
     for i in range(0, len(small), 1500):
         judge_geo(ctx, bins["geo"], small[i:i + 1500], "small-all-landmark-subsets")
     ctx.log("small graphs with all landmark subsets: %d cases" % len(small))
@@ -862,6 +952,10 @@ def correspond(ctx):
         c = g(r.fork(), N, k)
         m = r.range(1, max(1, min(N, 6)))
         c.lm = r.shuffle(list(range(N)))[:m] if r.chance(9, 10) else None
+        if c.lm and r.chance(1, 10):        # repeated landmarks are allowed by the routine (and by the theorem)
+            c.lm = c.lm + [r.choice(c.lm)]
+        if r.chance(1, 2):
+            c.idx = index_vector(r.fork(), N)
         batch.append((name, c))
     for name, _ in GENS:
         sub = [c for n, c in batch if n == name]
@@ -891,7 +985,16 @@ def correspond(ctx):
     for n in range(niso):
         N = r.choice([8, 8, 16]) if quick else r.choice([8, 16, 16, 32])
         W, kind = (i_points if n % 3 else i_matrix)(r.fork(), N)
-        iso.append(Iso(W, r.range(3, min(7, N - 1)), r.range(1, 3), "dense", 1 if r.chance(3, 4) else 0, kind))
+        c = Iso(W, r.range(3, min(7, N - 1)), r.range(1, 3), "dense", 1 if r.chance(3, 4) else 0, kind)
+        if n % 5 == 4:
+            # wide mantissas: weights d*(1 + j*2^-22) are exact in double, every path sum too, but need up to 27 bits;
+            # their squares are not exact in double, so the matrix is compared within 2^-30*scale for this family
+            f = 1 + Fraction(r.range(1, 2 ** 12 - 1) * 2 + 1, 2 ** 22)
+            c.W = [[x * f for x in row] for row in c.W]
+            c.approx, c.tag = True, kind + "-wide"
+        if r.chance(1, 2):
+            c.idx = index_vector(r.fork(), N)
+        iso.append(c)
     iso.sort(key=lambda c: 0 if all(c.W[i][j] == c.W[j][i] for i in range(c.N) for j in range(i)) else 1)
     judge_iso(ctx, bins["iso"], iso, [1, 3, 8] if quick else THREADS)
     ctx.log("isomap end to end: %d cases" % len(iso))
